@@ -1296,6 +1296,26 @@ def _(e):
     return "tensor.__setitem__", X.__setitem__, (subs, [1.0, 2.0, 3.0]), {}, X, {}
 
 
+@row("sptensor.__setitem__:sparse-rhs-does-not-fit-the-slice", (2, 3))
+def _(e):
+    # a slice that names fewer (or more) positions than the sparse right-hand side has in that mode
+    e.shape = tuple(max(3, s_) for s_ in e.shape)
+    X = e.holder("sptensor")
+    d = int(e.rng.integers(0, e.N))
+    c = int(e.rng.integers(0, 3))
+    rshape = list(e.shape)
+    if c == 0:
+        key = tuple(slice(1, None) if n == d else slice(None) for n in range(e.N))           # names shape-1 positions, rhs has shape
+    elif c == 1:
+        key = tuple(slice(0, e.shape[n] - 1) if n == d else slice(None) for n in range(e.N))  # one short
+    else:
+        key = tuple(slice(None, None, 2) if n == d else slice(None) for n in range(e.N))      # every other position
+    R = with_shape(e, tuple(rshape)).holder("sptensor")
+    if R.nnz == 0:
+        R[tuple(s_ - 1 for s_ in rshape)] = 2.0
+    return "sptensor.__setitem__", X.__setitem__, (key, R), {}, X, {"how": ["open-start", "short-stop", "strided"][c]}
+
+
 @row("tucker_als:negative-maxiters", (3,))
 def _(e):
     X = _adata(e)
